@@ -249,6 +249,10 @@ func releaseScratch(b *[]byte) {
 //
 // This function returns the next byte slice that should be read.
 // `b` must be a valid payload coming from a Header frame.
+//
+// When `b` ends before a header does the error is ErrUnexpectedSize. That is
+// also the case when `b` holds dynamic table size updates and nothing else:
+// then there is no header in `hf`, and no bytes are returned.
 func (hp *HPACK) Next(hf *HeaderField, b []byte) ([]byte, error) {
 	return hp.nextField(hf, true, 0, b)
 }
@@ -260,7 +264,8 @@ func (hp *HPACK) Next(hf *HeaderField, b []byte) ([]byte, error) {
 // When b ends before the field does, the error is ErrUnexpectedSize and the
 // bytes returned are the ones to put in front of what arrives next: the field
 // from its first byte, without the size updates before it. Those have been
-// applied, and are not to be read again.
+// applied, and are not to be read again. There are no such bytes when b ended
+// with a size update.
 func (hp *HPACK) nextField(hf *HeaderField, blockStart bool, fieldsProcessed int, b []byte) ([]byte, error) {
 	var (
 		n   uint64
@@ -277,7 +282,8 @@ func (hp *HPACK) nextField(hf *HeaderField, blockStart bool, fieldsProcessed int
 
 loop:
 	if len(b) == 0 {
-		return b, nil
+		// Size updates and nothing behind them: hf holds no field.
+		return b, ErrUnexpectedSize
 	}
 
 	c = b[0]
